@@ -111,7 +111,14 @@ class ConcurrentQueue {
   static constexpr bool is_lock_free() { return true; }
 
  protected:
-  T* at(uint32_t i) { return reinterpret_cast<T*>(buf_ + sizeof(T) * i); }
+  // typed slots (a union member is not constructed/destroyed implicitly): the solver sees objects of
+  // type T, not a byte buffer, so pointers stored inside elements keep their targets
+  union Slot {
+    T v;
+    Slot() {}
+    ~Slot() {}
+  };
+  T* at(uint32_t i) { return &buf_[i].v; }
 
   template <typename V>
   bool push(uint32_t producer, V&& v) {
@@ -172,7 +179,7 @@ class ConcurrentQueue {
     return got;
   }
 
-  alignas(alignof(T) > 16 ? alignof(T) : 16) unsigned char buf_[sizeof(T) * VF_MQ_CAP];
+  Slot buf_[VF_MQ_CAP];
   uint32_t prod_[VF_MQ_CAP];
   uint32_t n_;
 };
